@@ -149,8 +149,18 @@ class ParameterParser(Logger):
         else:
             return None
 
+    def reject_unknown_keys(self, section, config, known):
+        unknown = [k for k in config if k not in known]
+        if unknown:
+            self.error('Section [%s] does not have parameter(s) %s',
+                       section, unknown)
+            self.error('Available parameters are %s', list(known))
+            raise KeyError('Unknown parameter(s) {} in [{}]'.format(unknown,
+                                                                  section))
+
     def create_snr(self, binner, config):
         from taurex.instruments.snr import SNRInstrument
+        self.reject_unknown_keys('Instrument', config, ('instrument', 'SNR'))
         if binner is None:
             self.critical('Binning must be defined for SNR instrument')
             raise ValueError('Binning must be defined for SNR instrument')
@@ -220,20 +230,28 @@ class ParameterParser(Logger):
             observation_config = config['Observation']
             if 'lightcurve' in observation_config:
                 from taurex.data.spectrum.lightcurve import ObservedLightCurve
+                self.reject_unknown_keys('Observation', observation_config,
+                                         ('lightcurve',))
                 return ObservedLightCurve(observation_config['lightcurve'])
 
             elif 'observed_spectrum' in observation_config:
                 from taurex.data.spectrum.observed import ObservedSpectrum
+                self.reject_unknown_keys('Observation', observation_config,
+                                         ('observed_spectrum',))
                 return ObservedSpectrum(
                     observation_config['observed_spectrum'])
 
             elif 'taurex_spectrum' in observation_config:
+                self.reject_unknown_keys('Observation', observation_config,
+                                         ('taurex_spectrum',))
                 if observation_config['taurex_spectrum'] == 'self':
                     return 'self'
                 from taurex.data.spectrum.taurex import TaurexSpectrum
                 return TaurexSpectrum(observation_config['taurex_spectrum'])
             elif 'iraclis_spectrum' in observation_config:
                 from taurex.data.spectrum.iraclis import IraclisSpectrum
+                self.reject_unknown_keys('Observation', observation_config,
+                                         ('iraclis_spectrum',))
                 return IraclisSpectrum(observation_config['iraclis_spectrum'])
             else:
                 config = self._raw_config.dict()
